@@ -222,29 +222,29 @@ def stepFail (c : Cfg) (s : St) (t : Nat) : Option St :=
 
 def endable (p : Phase) : Bool := p == .pre || p == .post || p == .exc || p == .fin
 
+/-- event `t` leaves `_trigger` (its finalize stage is over) -/
+def finished (s : St) (t : Nat) : St :=
+  let s1 := if s.phase t = .fin then s else advFin s t
+  { s1 with phase := upd s1.phase t .over, cur := upd s1.cur (s.host t) none }
+
 def stepEvend (c : Cfg) (s : St) (t m o : Nat) : Option St :=
-  if running s t ∧ s.emodel t = m ∧ endable (s.phase t) = true then
-    let s1 := if s.phase t = .fin then s else advFin s t
-    let out := outOf s1 t
-    let h := s.host t
-    if o = out.code then
-      let s2 : St := { s1 with phase := upd s1.phase t .over, cur := upd s1.cur h none }
-      if c.queued = 0 then some { s2 with outc := upd s2.outc h (some out) }
-      else
-        match s.queue (c.key m) with
-        | [] => none
-        | t' :: rest =>
-          if t' = t then
-            if o = 0 then
-              if rest = [] then
-                some { s2 with queue := upd s2.queue (c.key m) [], drainer := upd s2.drainer (c.key m) none,
-                               outc := upd s2.outc h (some (.ret true)) }
-              else some { s2 with queue := upd s2.queue (c.key m) rest }
-            else
-              some { s2 with queue := upd s2.queue (c.key m) [], drainer := upd s2.drainer (c.key m) none,
-                             outc := upd s2.outc h (some out) }
-          else none
-    else none
+  if running s t ∧ s.emodel t = m ∧ endable (s.phase t) = true ∧ o = (outOf (finished s t) t).code then
+    if c.queued = 0 then
+      some { finished s t with outc := upd s.outc (s.host t) (some (outOf (finished s t) t)) }
+    else
+      match s.queue (c.key m) with
+      | [] => none
+      | t' :: rest =>
+        if t' = t then
+          if o = 0 then
+            if rest = [] then
+              some { finished s t with queue := upd s.queue (c.key m) [], drainer := upd s.drainer (c.key m) none,
+                                       outc := upd s.outc (s.host t) (some (.ret true)) }
+            else some { finished s t with queue := upd s.queue (c.key m) rest }
+          else
+            some { finished s t with queue := upd s.queue (c.key m) [], drainer := upd s.drainer (c.key m) none,
+                                     outc := upd s.outc (s.host t) (some (outOf (finished s t) t)) }
+        else none
   else none
 
 def stepRet (s : St) (t : Nat) (b : Bool) : Option St :=
